@@ -2001,7 +2001,7 @@ def rule_returns_element(ctx: Ctx, rid="C16.RETURNS-ELEMENT"):
 GUARDS = [
     ("length", "ValueError", lambda t: "len(" in t and "n" in t),
     ("positive-total", "ValueError", lambda t: "total" in t and ("<=" in t or "<" in t or ">" in t)),
-    ("finite-total", "ValueError", lambda t: "isfinite" in t),
+    ("finite-total", "ValueError", lambda t: "isfinite" in t or "isinf" in t or "isnan" in t),
 ]
 
 
@@ -2072,6 +2072,11 @@ def rule_guards(ctx: Ctx, rid="C16.GUARDS"):
             hit = [t for t, truth in tests if pred(t)]
             if not hit:
                 missing.append(name)
+        # the finiteness guard has to reject both an infinite and a NaN total (NaN also slips through `total <= 0`)
+        fin = " ".join(t for t, _ in tests if "isfinite" in t or "isinf" in t or "isnan" in t)
+        if fin and "isfinite" not in fin and not ("isinf" in fin and "isnan" in fin):
+            missing.append("finite-total (the test used lets a NaN total through)" if "isinf" in fin else
+                           "finite-total (the test used lets an infinite total through)")
         orig = _orig_param_facts(p)
         both_known = {orig.get("weights"), orig.get("cum_weights")} & {"none"}
         if not both_known:
@@ -2142,19 +2147,81 @@ def rule_stats(ctx: Ctx):
     n, p, conf, z = sp.Symbol("n", positive=True), sp.Symbol("p", nonnegative=True), sp.Symbol("confidence", positive=True), \
         sp.Symbol("z", nonnegative=True)
 
-    def to_sym(e, env):
+    MATH_CONST = {"pi": sp.pi, "e": sp.E, "inf": sp.oo, "tau": 2 * sp.pi}
+
+    def instance_of(e, mod):
+        """(class module, ClassDef, {field: sympy value}) if `e` names a module-level instance `X = C(...)` of a plain
+        (data)class of the package; else None."""
+        if not isinstance(e, ast.Name):
+            return None
+        m2, node = ctx.src.resolve_name(mod, e.id)
+        val = getattr(node, "value", None)
+        if not (isinstance(node, (ast.Assign, ast.AnnAssign)) and isinstance(val, ast.Call) and dotted(val.func)):
+            return None
+        m3, cnode = ctx.src.resolve_name(m2, dotted(val.func).split(".")[0])
+        if not isinstance(cnode, ast.ClassDef):
+            return None
+        fields, defaults = [], {}
+        for st in cnode.body:
+            if isinstance(st, ast.AnnAssign) and isinstance(st.target, ast.Name):
+                fields.append(st.target.id)
+                if st.value is not None:
+                    defaults[st.target.id] = st.value
+        init = next((f_ for f_ in cnode.body if isinstance(f_, ast.FunctionDef) and f_.name == "__init__"), None)
+        if init is not None or not fields:
+            return None          # only dataclass-style classes whose fields are their constructor arguments
+        vals = {}
+        for k_, dv in defaults.items():
+            vals[k_] = to_sym(dv, dict(sym), m3)
+        for k_, a_ in zip(fields, val.args):
+            vals[k_] = to_sym(a_, dict(sym), m2)
+        for kw in val.keywords:
+            if kw.arg:
+                vals[kw.arg] = to_sym(kw.value, dict(sym), m2)
+        if set(fields) - set(vals):
+            return None
+        return m3, cnode, vals
+
+    def to_sym(e, env, mod=None):
+        mod = mod or m
         if isinstance(e, ast.Constant) and isinstance(e.value, (int, float)):
             return sp.Rational(str(e.value)) if isinstance(e.value, float) else sp.Integer(e.value)
         if isinstance(e, ast.Name):
             if e.id in env:
                 return env[e.id]
-            mm_, node = ctx.src.resolve_name(m, e.id)
+            mm_, node = ctx.src.resolve_name(mod, e.id)
+            if isinstance(node, tuple) and node[0] == "ext" and node[1] == "math" and node[2] in MATH_CONST:
+                return MATH_CONST[node[2]]
             val = getattr(node, "value", None)
             if isinstance(val, (ast.Constant, ast.BinOp, ast.Call, ast.UnaryOp)):
-                return to_sym(val, dict(sym))
+                return to_sym(val, dict(sym), mm_ or mod)
             raise AnalysisError(f"stats: unknown name {e.id}")
+        if isinstance(e, ast.Attribute) and dotted(e) in ("math.pi", "math.e", "math.inf", "math.tau"):
+            return MATH_CONST[e.attr]
+        if isinstance(e, ast.Attribute) and isinstance(e.value, ast.Name) and ("self", e.attr) in env:
+            return env[("self", e.attr)]
+        if isinstance(e, ast.Call) and isinstance(e.func, ast.Attribute) and not e.keywords:
+            inst = instance_of(e.func.value, mod)
+            if inst is not None:
+                m3, cnode, vals = inst
+                meth = next((f_ for f_ in cnode.body if isinstance(f_, ast.FunctionDef) and f_.name == e.func.attr), None)
+                if meth is not None and not meth.decorator_list:
+                    mval = _helper_value(m3, meth)
+                    ps = [a_.arg for a_ in meth.args.args][1:]
+                    args_ = [to_sym(x, env, mod) for x in e.args]
+                    if mval is not None and len(ps) == len(args_):
+                        sname = meth.args.args[0].arg
+                        env2 = {**sym, **dict(zip(ps, args_)), **{("self", k_): v_ for k_, v_ in vals.items()}}
+                        # `self.x` reads are resolved through the ("self", x) entries
+                        class _S(ast.NodeTransformer):
+                            def visit_Attribute(self, n_):
+                                if isinstance(n_.value, ast.Name) and n_.value.id == sname:
+                                    return ast.copy_location(ast.Attribute(ast.Name("self", ast.Load()), n_.attr, ast.Load()), n_)
+                                return self.generic_visit(n_)
+                        import copy as _copy
+                        return to_sym(_S().visit(_copy.deepcopy(mval)), env2, m3)
         if isinstance(e, ast.BinOp):
-            l, r = to_sym(e.left, env), to_sym(e.right, env)
+            l, r = to_sym(e.left, env, mod), to_sym(e.right, env, mod)
             if isinstance(e.op, ast.Add):
                 return l + r
             if isinstance(e.op, ast.Sub):
@@ -2167,10 +2234,10 @@ def rule_stats(ctx: Ctx):
                 return l ** r
             raise AnalysisError(f"stats: operator {type(e.op).__name__}")
         if isinstance(e, ast.UnaryOp) and isinstance(e.op, ast.USub):
-            return -to_sym(e.operand, env)
+            return -to_sym(e.operand, env, mod)
         if isinstance(e, ast.Call):
             d = dotted(e.func)
-            args = [to_sym(x, env) for x in e.args]
+            args = [to_sym(x, env, mod) for x in e.args]
             fmap = {"abs": sp.Abs, "log": sp.log, "math.log": sp.log, "sqrt": sp.sqrt, "math.sqrt": sp.sqrt, "atanh": sp.atanh,
                     "math.atanh": sp.atanh, "exp": sp.exp, "math.exp": sp.exp, "fabs": sp.Abs, "math.fabs": sp.Abs}
             if d in fmap:
@@ -2179,15 +2246,19 @@ def rule_stats(ctx: Ctx):
                 return (sp.Max if d == "max" else sp.Min)(*args)
             if d in env and callable(env[d]):
                 return env[d](*args)
-            f = m.functions().get(d)
+            f = mod.functions().get(d)
+            fmod = mod
+            if f is None and d:
+                fmod, fnode = ctx.src.resolve_name(mod, d.split(".")[0])
+                f = fnode if isinstance(fnode, ast.FunctionDef) and "." not in d else None
             if f is not None and not e.keywords:
                 ps = [a_.arg for a_ in f.args.args]
-                val = _helper_value(m, f)
+                val = _helper_value(fmod, f)
                 if val is not None and len(ps) == len(args):
-                    return to_sym(val, {**sym, **dict(zip(ps, args))})
+                    return to_sym(val, {**sym, **dict(zip(ps, args))}, fmod)
             raise AnalysisError(f"stats: call {d} not modelled")
         if isinstance(e, ast.Tuple):
-            return tuple(to_sym(x, env) for x in e.elts)
+            return tuple(to_sym(x, env, mod) for x in e.elts)
         raise AnalysisError(f"stats: expression {type(e).__name__} not modelled")
 
     # ---- probit
@@ -2211,9 +2282,18 @@ def rule_stats(ctx: Ctx):
             return False
     grid = [{a: sp.Rational(k, 40)} for k in range(1, 40)]
     ok = same(f, ref, grid) or all(abs(float(sp.N((f - ref).subs(pt)))) < 1e-12 for pt in grid)
+    ex = sp.Rational(3, 4)
+    if not ok:
+        for pt in grid:
+            try:
+                if abs(complex(sp.N((f - ref).subs(pt)))) > 1e-12:
+                    ex = pt[a]
+                    break
+            except Exception:  # noqa: BLE001
+                pass
     ctx.rep.check(ok, "C18.FORMULA", con, "probit(alpha) == sqrt(pi/8) * |ln(alpha/(1-alpha))| (CAS normal form)" if ok else
                   f"probit computes {f}, which differs from the documented sqrt(pi/8)*|ln(alpha/(1-alpha))| "
-                  f"(e.g. at alpha=0.75: {sp.N(f.subs(a, sp.Rational(3, 4)), 6)} vs {sp.N(ref.subs(a, sp.Rational(3, 4)), 6)})",
+                  f"(e.g. at alpha={float(ex):g}: {sp.N(f.subs(a, ex), 6)} vs {sp.N(ref.subs(a, ex), 6)})",
                   site=m.site(probit), text=f"probit = {f}")
     symm = all(abs(float(sp.N((f - f.subs(a, 1 - a)).subs(pt)))) < 1e-12 for pt in grid)
     ctx.rep.check(symm, "C18.SYMMETRIC", con, "probit(alpha) == probit(1-alpha)" if symm else
